@@ -1,6 +1,6 @@
 import Haiway.Model.Proc
 import Driver.Common
-/-! `hwmodel proc`: blocks separated by `;`, each `<A|S|U> <dispEnter> <dispExit> <groupExit> <body>` with faults
+/-! `hwmodel proc`: blocks separated by `;`, each `<A|S|U> <dispEnter> <dispExit> <groupExit> <body> [<metricsExit>]` with faults
 `-` (none) | `c` (cancellation) | `u<k>` (exception k) | `?` (groupExit only: unknown – both are tried).
 out per block: `restored=<0|1> exc=<e>[/<e>]` (`/` separates the predictions for the two values of an unknown fault);
 `hwmodel proc` with the single word `shape` prints the IR terms. -/
@@ -20,26 +20,29 @@ def showExc : Option Exc → String
 
 def m0 : M := { ctx := ⟨0, 0, 0⟩, tok := ⟨7, 7, 7⟩, new := ⟨1, 1, 1⟩ }
 
-def runOne (kind : String) (de dx gx body : Option Exc) : String :=
-  let φ : Faults := fun a => match a with | .dispEnter => de | .dispExit => dx | .groupExit => gx | _ => none
+def runOne (kind : String) (de dx gx body : Option Exc) (mx : Option Exc := none) : String :=
+  let φ : Faults := fun a => match a with | .dispEnter => de | .dispExit => dx | .groupExit => gx | .metricsExit => mx | _ => none
   let (en, ex) := if kind == "A" then (aenter, aexit) else if kind == "S" then (senter, sexit) else (uenter, uexit)
   let r := block en ex φ body id m0
   let saw (o : Option (Option Exc)) : String := match o with | none => "." | some e => showExc e
   s!"restored={if r.1.ctx = m0.ctx then 1 else 0} gsaw={saw r.1.groupSaw} exc={showExc r.2}"
 
-def runBlock (spec : String) : String :=
-  match Driver.words spec with
-  | [kind, de, dx, gx, body] =>
-    match parseExc de, parseExc dx, parseExc body with
-    | some de, some dx, some body =>
+def runBlock5 (kind de dx gx body mx : String) : String :=
+    match parseExc de, parseExc dx, parseExc body, parseExc mx with
+    | some de, some dx, some body, some mx =>
       if gx == "?" then
-        let a := runOne kind de dx none body
-        let b := runOne kind de dx (some .cancel) body
+        let a := runOne kind de dx none body mx
+        let b := runOne kind de dx (some .cancel) body mx
         if a == b then a else s!"{a}/{(b.splitOn "exc=").getD 1 ""}"
       else match parseExc gx with
-        | some gx => runOne kind de dx gx body
+        | some gx => runOne kind de dx gx body mx
         | none => "bad-fault"
-    | _, _, _ => "bad-fault"
+    | _, _, _, _ => "bad-fault"
+
+def runBlock (spec : String) : String :=
+  match Driver.words spec with
+  | [kind, de, dx, gx, body] => runBlock5 kind de dx gx body "-"
+  | [kind, de, dx, gx, body, mx] => runBlock5 kind de dx gx body mx      -- `mx`: the metrics exit raises (after its reset)
   | _ => "bad-block"
 
 def showProc : Proc → String
